@@ -15,7 +15,7 @@ F = Fraction
 # coq/gen/EmpiricalGen.v on every run
 GEN_PARAMS = '(N : Num) (Phi : V N -> V N) (percentile : list (V N) -> V N -> option (V N))'
 GEN_ARGS = 'N Phi percentile'
-GEN_HEADER = ('From Coq Require Import ZArith Bool List.\nRequire Import PV.Num.\nImport ListNotations.\nLocal Open Scope list_scope.\n'
+GEN_HEADER = ('From Coq Require Import ZArith Bool List.\nRequire Import PV.Num PV.Empirical.\nImport ListNotations.\nLocal Open Scope list_scope.\n'
               '(* GENERATED on every run by harness/props/c14.py:extract from $VERIF_REPO/src/pyhf/infer/calculators.py - do not edit.\n'
               '   samples is self.samples (a rank-1 tensor = list); Phi is tensorlib.normal_cdf; percentile l q is\n'
               '   tensorlib.percentile(l, q, interpolation="linear"); integer tensors are Z, their true division is the division of\n'
@@ -104,7 +104,169 @@ def generate():
     if not (isinstance(v, tt.Tup) and len(v.items) == 3):
         raise tt.TB('ToyCalculator.pvalues does not return a triple')
     emit(fn, 'gen_toy_pvalues', '(teststat : V N) (sb b : list (V N))', '(V N * V N * V N)', '(%s, %s, %s)' % tuple(x.num(i) for i in v.items))
+    text += _gen_distributions(tree, path, rel, emp, toy, info)
     return text, info
+
+
+# ---- ToyCalculator.distributions (third/fourth translator layer: loops as folds, the order of the draws as a counter) -------------------------
+DIST_NOTE = '''
+(* ToyCalculator.distributions.  Reading of the python values (the trusted part): self.data / self.pdf / self.init_pars / self.par_bounds /
+   self.fixed_params are what the caller gave (opaque values of types Data / Pdf / Init / Bounds / Fixed), self.ntoys a natural number,
+   self.test_stat one of 'qtilde' / 'q' / 'q0' (the constructors of test_stat);
+   fit poi data pdf init bounds fixed  is  pyhf.infer.mle.fixed_poi_fit  with its parameters bound as python binds them (signature read from
+   infer/mle.py on every run; a parameter the call does not give is None);
+   sample k pdf pars n  is  self.pdf.make_pdf(pars).sample((n,))  as the k-th sampling call of this run of distributions (k counts the
+   .sample calls in execution order: the pseudo-random stream is consumed in that order);
+   tsf ts poi d pdf init bounds fixed  is  utils.get_test_stat(ts)(poi, d, pdf, init, bounds, fixed)  (all six positional);
+   tqdm.tqdm(it, ..) iterates over it; EmpiricalDistribution(tensorlib.astensor(l)) is identified with the list l of its samples (its
+   __init__ is checked to store tensorlib.ravel(samples)); track_progress (progress bar only) is not an input of the result. *)
+'''
+
+
+def _gen_distributions(tree, path, rel, emp, toy, info):
+    import ast
+    from harness.props import tie_translate as tt
+    from harness.props import tie_translate_x4 as t4
+    TS = {'qtilde': 'TQtilde', 'q': 'TQ', 'q0': 'TQ0'}
+    mtree, _ = facts.parse('infer/mle.py')
+    fit_fn = facts.find_func(mtree, 'fixed_poi_fit')
+    tstree, _ = facts.parse('infer/test_statistics.py')
+    utree, _ = facts.parse('infer/utils.py')
+    # utils.get_test_stat(name): the table name -> function of test_statistics, all with the same six leading positional parameters
+    gts = facts.find_func(utree, 'get_test_stat')
+    table = None
+    for n in ast.walk(gts):
+        if isinstance(n, ast.Dict) and all(isinstance(k, ast.Constant) for k in n.keys):
+            table = {k.value: ast.unparse(v) for k, v in zip(n.keys, n.values)}
+    if table is None or set(table) != set(TS):
+        raise tt.TB('utils.get_test_stat: the table of test statistics is not {qtilde, q, q0}')
+    for name, f in table.items():
+        fn = facts.find_func(tstree, f.split('.')[-1])
+        if [a.arg for a in fn.args.args][:6] != ['mu', 'data', 'pdf', 'init_pars', 'par_bounds', 'fixed_params'] or len(fn.args.defaults) > len(fn.args.args) - 6:
+            raise tt.TB('test statistic %s: parameters are not (mu, data, pdf, init_pars, par_bounds, fixed_params, ..)' % f)
+    # __init__ stores the constructor arguments (init_pars / par_bounds / fixed_params: the caller's value, or the model's suggestion when falsy)
+    init = facts.find_func(toy, '__init__')
+    stored = {ast.unparse(n.targets[0]): ast.unparse(n.value) for n in init.body if isinstance(n, ast.Assign) and len(n.targets) == 1}
+    want = {'self.ntoys': 'ntoys', 'self.data': 'data', 'self.pdf': 'pdf', 'self.test_stat': 'test_stat',
+            'self.init_pars': 'init_pars or pdf.config.suggested_init()', 'self.par_bounds': 'par_bounds or pdf.config.suggested_bounds()',
+            'self.fixed_params': 'fixed_params or pdf.config.suggested_fixed()'}
+    for k, v in want.items():
+        if stored.get(k) != v:
+            raise tt.TB('ToyCalculator.__init__: %s is not %s' % (k, v))
+
+    class XD(t4.Exec4):
+        def global_name(self, name, st):
+            if name in ('get_backend', 'fixed_poi_fit', 'utils', 'tqdm', 'dict', 'float'):
+                return tt.Ext(name)
+            if name == 'EmpiricalDistribution':
+                return tt.Ext('EmpiricalDistribution')
+            raise tt.TB('unknown name %s' % name)
+
+        def self_attr(self, attr, node, st):
+            m = {'ntoys': tt.T('ntoys', tt.NAT), 'data': tt.T('data', 'Data'), 'pdf': tt.T('pdf', 'Pdf'), 'init_pars': tt.T('init', 'Init'),
+                 'par_bounds': tt.T('bounds', 'Bounds'), 'fixed_params': tt.T('fixed', 'Fixed'), 'test_stat': tt.T('ts', 'test_stat'),
+                 'track_progress': tt.T('track', tt.BOOL)}
+            if attr in m:
+                return m[attr]
+            raise tt.TB('self.%s (line %d)' % (attr, node.lineno))
+
+        def compare1(self, op, a, b, node):
+            opn = type(op).__name__
+            if opn in ('Eq', 'NotEq') and isinstance(a, tt.T) and a.ty == 'test_stat' and isinstance(b, tt.S) and isinstance(b.v, str):
+                if b.v not in TS:
+                    raise tt.TB('test statistic %r (line %d)' % (b.v, node.lineno))
+                s = '(match %s with %s => true | _ => false end)' % (a.s, TS[b.v])
+                return tt.T(s if opn == 'Eq' else '(negb %s)' % s, tt.BOOL)
+            return super().compare1(op, a, b, node)
+
+        def attr_ext(self, base, attr, node, st):
+            if isinstance(base, tt.Ext):
+                if base.tag == 'tensorlib':
+                    return tt.Ext('tensorlib.' + attr)
+                if (base.tag, attr) in (('utils', 'get_test_stat'), ('tqdm', 'tqdm'), ('made-pdf', 'sample')):
+                    return tt.Ext(base.tag + '.' + attr, base.data)
+            return super().attr_ext(base, attr, node, st)
+
+        def method_ext(self, base, name, args, kwargs, node, st):
+            if isinstance(base, tt.T) and base.ty == 'Pdf' and name == 'make_pdf' and len(args) == 1 and not kwargs and isinstance(args[0], tt.T) and args[0].ty == 'Pars':
+                return tt.Ext('made-pdf', (base, args[0]))
+            return super().method_ext(base, name, args, kwargs, node, st)
+
+        def opt(self, v, ty, node):
+            if isinstance(v, tt.S) and v.v is None:
+                return 'None'
+            if isinstance(v, tt.T) and v.ty == ty:
+                return '(Some %s)' % v.s
+            raise tt.TB('a %s or None was expected, got %r (line %d)' % (ty, v, node.lineno))
+
+        def need(self, v, ty, node):
+            if isinstance(v, tt.T) and v.ty == ty:
+                return v.s
+            raise tt.TB('a %s was expected, got %r (line %d)' % (ty, v, node.lineno))
+
+        def call_ext(self, f, args, kwargs, node, st):
+            tag = f.tag
+            if tag == 'fixed_poi_fit':
+                bound, params, extra = tt.bind_call(fit_fn, args, kwargs, what='fixed_poi_fit')
+                if extra or params != ['poi_val', 'data', 'pdf', 'init_pars', 'par_bounds', 'fixed_params']:
+                    raise tt.TB('fixed_poi_fit: signature / keywords outside the reading (line %d)' % node.lineno)
+                for p_, dv in tt.defaults_of(fit_fn).items():
+                    if p_ not in bound:
+                        bound[p_] = self.expr(dv, tt.St())
+                if set(bound) != set(params):
+                    raise tt.TB('fixed_poi_fit: missing arguments (line %d)' % node.lineno)
+                return tt.T('(fit %s %s %s %s %s %s)' % (self.num(bound['poi_val'], node), self.need(bound['data'], 'Data', node), self.need(bound['pdf'], 'Pdf', node),
+                                                     self.opt(bound['init_pars'], 'Init', node), self.opt(bound['par_bounds'], 'Bounds', node),
+                                                     self.opt(bound['fixed_params'], 'Fixed', node)), 'Pars')
+            if tag == 'made-pdf.sample' and len(args) == 1 and not kwargs:
+                shape = args[0]
+                if not (isinstance(shape, tt.Tup) and len(shape.items) == 1 and isinstance(shape.items[0], tt.T) and shape.items[0].ty == tt.NAT):
+                    raise tt.TB('sample shape is not (n,) (line %d)' % node.lineno)
+                k = st.attrs.get('\x00draws')
+                if not (isinstance(k, tt.S) and isinstance(k.v, int)):
+                    raise tt.TB('the number of sampling calls made so far is not determined (line %d)' % node.lineno)
+                st.attrs['\x00draws'] = tt.S(k.v + 1)
+                pdf, pars = f.data
+                return tt.mk('(sample %d %s %s %s)' % (k.v, pdf.s, pars.s, shape.items[0].s), tt.LIST('Data'), 2)
+            if tag == 'utils.get_test_stat' and len(args) == 1 and not kwargs and isinstance(args[0], tt.T) and args[0].ty == 'test_stat':
+                return tt.Ext('teststat_func', args[0])
+            if tag == 'teststat_func':
+                if len(args) != 6 or kwargs:
+                    raise tt.TB('the test statistic is not called with its six positional arguments (line %d)' % node.lineno)
+                tys = ['Data', 'Pdf', 'Init', 'Bounds', 'Fixed']
+                return tt.T('(tsf %s %s %s)' % (f.data.s, self.num(args[0], node), ' '.join(self.need(a, ty, node) for a, ty in zip(args[1:], tys))), tt.NUM)
+            if tag == 'tqdm.tqdm' and len(args) == 1 and set(kwargs) <= {'total', 'leave', 'disable', 'unit', 'desc'}:
+                return args[0]
+            if tag == 'EmpiricalDistribution' and len(args) == 1 and not kwargs and isinstance(args[0], tt.T) and args[0].ty == tt.LIST(tt.NUM):
+                return args[0]
+            raise tt.TB('call of %r (line %d)' % (f, node.lineno))
+
+    fn = facts.find_func(toy, 'distributions')
+    a = fn.args
+    if [x.arg for x in a.args] != ['self', 'poi_test', 'track_progress'] or a.vararg or a.kwarg or a.kwonlyargs or [ast.unparse(d) for d in a.defaults] != ['None']:
+        raise tt.TB('ToyCalculator.distributions: parameters are not (self, poi_test, track_progress=None)')
+    x = XD({})
+    x.locals = tt.assigned_locals(fn)
+    o = x.block(fn.body, tt.St(env={'poi_test': tt.T('poi_test', tt.NUM), 'track_progress': tt.S(None)}, attrs={'\x00draws': tt.S(0)}))
+
+    def leaf(l):
+        if not isinstance(l, tt.Ret):
+            raise tt.TB('distributions: a path raises or ends without return')
+        v = l.val
+        if not (isinstance(v, tt.Tup) and len(v.items) == 2 and all(isinstance(i, tt.T) and i.ty == tt.LIST(tt.NUM) for i in v.items)):
+            raise tt.TB('distributions does not return two EmpiricalDistributions')
+        if not (isinstance(l.st.attrs.get('\x00draws'), tt.S) and l.st.attrs['\x00draws'].v == 2):
+            raise tt.TB('distributions does not make exactly two sampling calls')
+        return '(%s, %s)' % (v.items[0].s, v.items[1].s)
+    body = tt.render2(o, leaf)
+    out = DIST_NOTE + '\n' + tt.source_comment(rel, fn, path)
+    out += ('Definition gen_distributions (N : Num) (Pars Data Pdf Init Bounds Fixed : Type)\n'
+            '    (fit : V N -> Data -> Pdf -> option Init -> option Bounds -> option Fixed -> Pars) (sample : nat -> Pdf -> Pars -> nat -> list Data)\n'
+            '    (tsf : test_stat -> V N -> Data -> Pdf -> Init -> Bounds -> Fixed -> V N)\n'
+            '    (data : Data) (pdf : Pdf) (init : Init) (bounds : Bounds) (fixed : Fixed) (track : bool) (ts : test_stat) (ntoys : nat) (poi_test : V N)\n'
+            '    : list (V N) * list (V N) :=\n  %s.\n' % body)
+    info['gen_distributions'] = len(body)
+    return out
 
 
 def extract(ctx):
@@ -534,7 +696,7 @@ def run(ctx):
     try:
         ctx.coverage['translated_from_source'] = extract(ctx)
     except facts.TieBroken as e:
-        tie = 'translation of pyhf/infer/calculators.py (EmpiricalDistribution, ToyCalculator.pvalues) to Gallina failed (harness/props/c14.py:extract): %s' % e
+        tie = 'translation of pyhf/infer/calculators.py (EmpiricalDistribution, ToyCalculator.pvalues / distributions) to Gallina failed (harness/props/c14.py:extract): %s' % e
         core.coq_make(['Empirical.vo', 'Run.vo'])
     if tie is None:
         ok, txt = core.prove(ctx)
@@ -543,8 +705,8 @@ def run(ctx):
                    if ('Tie' in txt or 'source_is_model' in txt or 'Gen.v' in txt) else 'proof obligations of props/C14.v no longer check: ')
             tie = why + txt[-1500:]
             core.coq_make(['Empirical.vo', 'Run.vo'])
-    ctx.trusted += ['harness/props/c14.py:extract + harness/props/tie_translate.py (python ast -> Gallina for EmpiricalDistribution.pvalue/expected_value and '
-                    'ToyCalculator.pvalues; fail closed): C14_source_is_model_* prove the translated definitions equal to the hand model']
+    ctx.trusted += ['harness/props/c14.py:extract + harness/props/tie_translate.py / tie_translate_x4.py (python ast -> Gallina for EmpiricalDistribution.pvalue/expected_value and '
+                    'ToyCalculator.pvalues / distributions; fail closed; reading of the external calls of distributions stated in coq/gen/EmpiricalGen.v): C14_source_is_model_* prove the translated definitions equal to the hand model']
     ctx.trusted += ['the random samplers (scipy.stats rvs for numpy/jax, torch.distributions, tensorflow_probability) are NOT modelled: the distributional claims are '
                     'validated statistically with fixed seeds and 6-sigma bands, never proved',
                     'exact Poisson tail probabilities are proposed by mpmath and every one used is certified by an `interval` goal compiled in the same run',
